@@ -59,7 +59,9 @@ func TestC14Exhaustive(t *testing.T) {
 
 func genCase(t *rapid.T) Case {
 	var cp int
-	switch rapid.IntRange(0, 9).Draw(t, "capClass") {
+	switch rapid.IntRange(0, 10).Draw(t, "capClass") {
+	case 10: // big buffers: thousands of slots, around powers of two
+		cp = rapid.OneOf(rapid.IntRange(301, 5000), rapid.SampledFrom([]int{1023, 1024, 1025, 2047, 2048, 2049, 4096})).Draw(t, "cap")
 	case 0, 1, 2:
 		cp = rapid.IntRange(0, 4).Draw(t, "cap")
 	case 3, 4, 5:
@@ -88,6 +90,17 @@ func genCase(t *rapid.T) Case {
 		}
 	})
 	maxLen := vstat.Pick(200, 600)
+	if cp > 300 {
+		// single calls barely move a buffer of thousands: mix in bulk writes (to the brim and beyond, or part of the way)
+		single := opGen
+		opGen = rapid.Custom(func(t *rapid.T) Op {
+			if rapid.IntRange(0, 3).Draw(t, "bulk") == 0 {
+				return Op{K: "f", N: rapid.OneOf(rapid.IntRange(cp-2, cp+2), rapid.IntRange(1, cp)).Draw(t, "fill")}
+			}
+			return single.Draw(t, "single")
+		})
+		maxLen = 24
+	}
 	ops := rapid.SliceOfN(opGen, 0, maxLen).Draw(t, "ops")
 	// a burst of writes up front makes large buffers reach their interesting states
 	if cp > 4 && rapid.Bool().Draw(t, "prefill") {
